@@ -163,6 +163,16 @@ def fuse_comprehensions(t):
             outer_bound = None
             for b in subterms(t[2], lambda x: x[0] == "bound" and x[3] == show(dom)) + [b for c in conds for b in subterms(c, lambda x: x[0] == "bound" and x[3] == show(dom))]:
                 outer_bound = b
+            if outer_bound is None:
+                # the domain was rewritten after the comprehension was built (its bound still carries the old label): the outer bound is the
+                # one bound variable of the element / tests that does not belong to the inner comprehension
+                inner_label = show(inner[3][0][0])
+                cands = []
+                for b in subterms((t[2],) + tuple(conds), lambda x: x[0] == "bound" and isinstance(x[1], int) and x[3] != inner_label):
+                    if b not in cands:
+                        cands.append(b)
+                if len(cands) == 1:
+                    outer_bound = cands[0]
             mp = {outer_bound: inner[2]} if outer_bound is not None else {}
             elt = subst(t[2], mp)
             conds2 = tuple(inner[3][0][1]) + tuple(subst(c, mp) for c in conds)
